@@ -35,6 +35,7 @@ fn main() {
         Some("selftest") => props::selftest(),
         Some("c18ref") => c18ref(),
         Some("lpcprobe") => lpcprobe(),
+        Some("lpcprobe2") => lpcprobe2(),
         _ => {
             eprintln!("usage: vpx run <ID> <quick|thorough> | replay <file> | selftest");
             2
@@ -87,6 +88,94 @@ fn lpcprobe() -> i32 {
             }
         }
     }
+    0
+}
+
+/// diagnostic: look for inputs that drive the LPC quantiser to a shift of 0 / the negative-shift branch
+fn lpcprobe2() -> i32 {
+    use crate::codec::{encode, Opt, Sig, WriterKind, Win};
+    let mut best: Vec<(i8, i32, String)> = Vec::new();
+    for bps in [16u32, 24, 32] {
+        let amp = ((1i64 << (bps - 1)) - 1) as f64;
+        for bs in [128u16, 192, 384] {
+            for k in 6..=12usize {
+                for f0 in [0.004f64, 0.006, 0.008, 0.01, 0.012, 0.015, 0.02, 0.025, 0.03] {
+                    for spread in [1.6f64, 1.8, 2.0, 2.2, 2.5] {
+                        let n = bs as usize + 1;
+                        let pcm: Vec<i32> = (0..n).map(|i| { let mut v = 0.0; for j in 0..k { v += ((i as f64) * f0 * spread.powi(j as i32) + j as f64).sin(); } (v / k as f64 * amp * 0.95) as i32 }).collect();
+                        for lpc in [12u8, 32] {
+                            for win in [Win::Hann, Win::Tukey(1.0), Win::Tukey(0.5)] {
+                                let opt = Opt { block: bs, lpc: Some(lpc), win, part: 0, ..Opt::base16() };
+                                if let Ok(b) = encode(WriterKind::Sample, &opt, &Sig { rate: 44100, bps, ch: 1 }, &pcm) {
+                                    if let Ok(st) = vph::refdec::decode(&b) {
+                                        for s in st.frames.iter().flat_map(|f| f.subframes.iter()) {
+                                            if let vph::refdec::SubKind::Lpc(o) = s.kind {
+                                                let mx = s.coefs.iter().map(|c| c.abs()).max().unwrap_or(0);
+                                                if s.shift <= 1 {
+                                                    best.push((s.shift, mx, format!("bps {bps} bs {bs} k {k} f0 {f0} spread {spread} lpc {lpc} win {win:?}: order {o} precision {} shift {} max|c| {mx}", s.precision, s.shift)));
+                                                }
+                                            }
+                                        }
+                                    }
+                                }
+                            }
+                        }
+                    }
+                }
+            }
+        }
+    }
+    // m-fold integrated noise: spectrum ~ 1/f^(2m), the optimal predictor approaches (1 - z^-1)^m (binomial coefficients)
+    for bps in [24u32, 32] {
+        let amp = ((1i64 << (bps - 1)) - 1) as f64;
+        for bs in [64u16, 96, 128, 192] {
+            for m in 4..=14usize {
+                for seed in 0..6u64 {
+                    let n = bs as usize + 1;
+                    let mut g = crate::core::Lcg(seed * 977 + m as u64);
+                    let mut v: Vec<f64> = (0..n).map(|_| (g.next() % 2001) as f64 - 1000.0).collect();
+                    for _ in 0..m {
+                        let mut acc = 0.0;
+                        for x in v.iter_mut() {
+                            acc += *x;
+                            *x = acc;
+                        }
+                        let mean = v.iter().sum::<f64>() / n as f64;
+                        for x in v.iter_mut() {
+                            *x -= mean;
+                        }
+                    }
+                    let mx = v.iter().fold(0.0f64, |a, b| a.max(b.abs())).max(1.0);
+                    let pcm: Vec<i32> = v.iter().map(|x| (x / mx * amp * 0.9) as i32).collect();
+                    for lpc in [8u8, 12, 32] {
+                        for win in [Win::Rect, Win::Hann, Win::Tukey(0.5)] {
+                            let opt = Opt { block: bs, lpc: Some(lpc), win, part: 0, ..Opt::base16() };
+                            if let Ok(b) = encode(WriterKind::Sample, &opt, &Sig { rate: 44100, bps, ch: 1 }, &pcm) {
+                                if let Ok(st) = vph::refdec::decode(&b) {
+                                    for s in st.frames.iter().flat_map(|f| f.subframes.iter()) {
+                                        if let vph::refdec::SubKind::Lpc(o) = s.kind {
+                                            let mxc = s.coefs.iter().map(|c| c.abs()).max().unwrap_or(0);
+                                            if s.shift <= 2 {
+                                                best.push((s.shift, mxc, format!("INTEG bps {bps} bs {bs} m {m} seed {seed} lpc {lpc} win {win:?}: order {o} precision {} shift {} max|c| {mxc} coefs {:?}", s.precision, s.shift, s.coefs)));
+                                            }
+                                        }
+                                    }
+                                }
+                            }
+                        }
+                    }
+                }
+            }
+        }
+    }
+    best.sort_by_key(|b| (b.0, -b.1));
+    for b in best.iter().take(12) {
+        println!("{}", b.2);
+    }
+    for b in best.iter().filter(|b| b.2.starts_with("INTEG")).take(12) {
+        println!("{}", b.2);
+    }
+    println!("{} candidates with shift <= 1", best.len());
     0
 }
 
